@@ -313,12 +313,19 @@ def rust_probe(idx, item, cfg, qs, hostile=False):
             lines.append('{ let a: %s = %s; take_log(); let nd = ::core::mem::needs_drop::<%s>(); ::core::mem::drop(a); let l = take_log(); '
                          'emit(format!("%s|{}|{}", nd, l)); }' % (ty, val_expr(item, a[0], a[1], targs), ty, tag))
     body = '\n        '.join(lines)
+    if hostile == 'nip' and not getattr(item, 'expect_error', None):
+        # the whole module is WITHOUT the implicit prelude; the probe code itself only uses absolute paths and explicit imports
+        txt = ('#[no_implicit_prelude]\npub mod m%d {\n    use super::prelude::*;\n    use ::derive_where::derive_where;\n'
+               '    use ::core::clone::Clone; use ::core::marker::Copy;\n    %s\n    %s\n'
+               '    pub fn run() {\n        emit(format!("BEGIN|%d"));\n        %s\n    }\n}\n'
+               % (idx, item.rust(), view_fn(item, targs), idx, body))
+        return txt.replace('format!(', '::std::format!(').replace('-> String', '-> ::std::string::String')
     if getattr(item, 'expect_error', None):
         return ('pub mod m%d {\n    use super::prelude::*;\n    use derive_where::derive_where;\n%s    %s\n    pub fn run() {}\n}\n'
-                % (idx, HOSTILE if hostile else '', item.rust()))
+                % (idx, HOSTILE if hostile is True else '', item.rust()))
     return ('pub mod m%d {\n    use super::prelude::*;\n    use derive_where::derive_where;\n%s    %s\n    %s\n'
             '    pub fn run() {\n        emit(format!("BEGIN|%d"));\n        %s\n    }\n}\n'
-            % (idx, HOSTILE if hostile else '', item.rust(), view_fn(item, targs), idx, body))
+            % (idx, HOSTILE if hostile is True else '', item.rust(), view_fn(item, targs), idx, body))
 
 
 CARGO = '''[package]
